@@ -1,9 +1,9 @@
 (* C11 — class declaration order is a complete topological order; cycles are refused.
    This file holds only statements closed by `exact`, with Print Assumptions. *)
-From Coq Require Import Permutation.
+From Coq Require Import Permutation String.
 From Statham.Model Require Import Str Orderer Tables.
 From Statham.Generated Require Import Gen_orderer_paths.
-From Statham.Proofs Require Import StrFacts OrdererLoop Agree_orderer.
+From Statham.Proofs Require Import StrFacts OrdererLoop OrdererSound Agree_orderer.
 
 (* The emission loop of orderer(): on every dependency map with unique keys that is
    closed (dependencies are keys and are transitive, which get_children's transitive
@@ -34,3 +34,43 @@ Theorem C11_paths_audited :
   incl_str Gen_orderer_paths.paths orderer_paths && incl_str orderer_paths Gen_orderer_paths.paths = true.
 Proof. exact orderer_paths_agree. Qed.
 Print Assumptions C11_paths_audited.
+
+(* Soundness with NO premise on the map beyond unique keys (it is a Python dict): every
+   order the loop returns is a permutation of the keys with every dependency before its
+   dependant.  So even on a map that is not closed (a dependency that is not a key) the
+   loop cannot return a partial or mis-ordered list: it returns nothing (next theorems). *)
+Theorem C11_loop_sound : forall (d : deps_t) l,
+  NoDup (keys d) -> order_names d = OOk l ->
+  Permutation l (keys d) /\ forall k ds x, In (k, ds) d -> In x ds -> before x k l.
+Proof. exact order_names_sound. Qed.
+Print Assumptions C11_loop_sound.
+
+(* The loop needs at most one iteration per key: the model's fuel is never the reason for
+   an answer (the totalised OOutOfFuel value is unreachable from the loop). *)
+Theorem C11_loop_total : forall d : deps_t, NoDup (keys d) -> order_names d <> OOutOfFuel.
+Proof. exact order_names_total. Qed.
+Print Assumptions C11_loop_total.
+
+(* The closing `assert not object_dependencies.values()` can fire only on a map that is
+   not closed; on orderer()'s own maps that is excluded by the correspondence run. *)
+Theorem C11_assert_only_unclosed : forall d : deps_t,
+  NoDup (keys d) -> order_names d = OAssertionError -> ~ closed d.
+Proof. exact order_names_assert. Qed.
+Print Assumptions C11_assert_only_unclosed.
+
+(* The same for orderer() as a whole, over every identity graph and root list: the map it
+   builds is a dict (unique keys by construction), so no premise is left. *)
+Theorem C11_orderer_sound : forall paths G roots l,
+  orderer paths G roots = OOk l ->
+  exists ocs ps, get_object_classes paths G roots = Some ocs /\ dep_pairs paths G ocs = Some ps /\
+    Permutation l (keys (dict_of_pairs ps)) /\
+    forall k ds x, In (k, ds) (dict_of_pairs ps) -> In x ds -> before x k l.
+Proof. exact orderer_sound. Qed.
+Print Assumptions C11_orderer_sound.
+
+Local Open Scope string_scope.
+Local Open Scope list_scope.
+Example C11_sound_nonvacuous :
+  order_names [(s_ "B", [s_ "A"]); (s_ "A", [])] = OOk [s_ "A"; s_ "B"] /\
+  order_names [(s_ "B", [s_ "Z"]); (s_ "A", [])] = OAssertionError.
+Proof. vm_compute. split; reflexivity. Qed.
